@@ -1,18 +1,9 @@
 # Mutation catalogue: single-site changes to /repo that break a property (development aid).
-MUTANTS = [
-    {"id": "c01_z_sign_e2", "prop": "C01", "file": "src/geodesy/ECEFConverter.cpp",
-     "old": "(N * (1.0 - ellipsoid_.e2) + altitude)", "new": "(N * (1.0 + ellipsoid_.e2) + altitude)",
-     "what": "sign of the e2 term in Z"},
-    {"id": "c01_eps_loose", "prop": "C01", "file": "src/geodesy/ECEFConverter.cpp",
-     "old": "const double EPSILON = 1e-11;", "new": "const double EPSILON = 1e-6;",
-     "what": "latitude iteration stopped at 1e-6"},
-    {"id": "c01_alt_sin", "prop": "C01", "file": "src/geodesy/ECEFConverter.cpp",
-     "old": "double altitude = norm / cos(latitude)", "new": "double altitude = norm / sin(latitude)",
-     "what": "altitude uses sin"},
-    {"id": "c01_halfangle_back", "prop": "C01", "file": "src/geodesy/ECEFConverter.cpp",
-     "old": "double longitude = atan2(Y, X);", "new": "double longitude = 2.0 * atan(Y / (X + norm));",
-     "what": "re-introduce the half-angle longitude (the repaired defect)"},
-    {"id": "c01_lon_branch", "prop": "C01", "file": "src/geodesy/ECEFConverter.cpp",
-     "old": "double longitude = atan2(Y, X);", "new": "double longitude = (X > 0) ? atan(Y / X) : atan2(Y, X);\n  if (X > 0 && fabs(Y) > 1e3 * X) {longitude = atan(Y / X) * (1 + 1e-7);}",
-     "what": "longitude wrong only within 1e-3 rad of the +-90 deg meridians"},
-]
+# One file per property in selftest/mutants/CNN.py, each defining MUTANTS = [ {id, prop, file, old, new, what}, ... ]
+import glob, importlib.util, os
+MUTANTS = []
+for _p in sorted(glob.glob(os.path.join(os.path.dirname(os.path.abspath(__file__)), "mutants", "C*.py"))):
+    _spec = importlib.util.spec_from_file_location("mut_" + os.path.basename(_p)[:-3], _p)
+    _m = importlib.util.module_from_spec(_spec)
+    _spec.loader.exec_module(_m)
+    MUTANTS += _m.MUTANTS
